@@ -1,7 +1,7 @@
 """C10 -- a failing or cancelled build reports it and can be rolled back."""
 import paths
 from facts import strip, show, walk, short
-from rules import (EFF_TXN_ENV, EFF_LEAK, effect_scan, owner_path, sp)
+from rules import (EFF_TXN_ENV, EFF_LEAK, effect_scan, owner_path, sp, root)
 from props import C06
 
 EXPL = ("Decided by an error-discipline analysis over every non-test MIR body: (R-ERR) every local of type "
@@ -306,6 +306,49 @@ def r_cancel(ctx):
         ctx.floor(rule, 'functions reachable from the build entry that poll the callback', len(polled), 10)
 
 
+def r_tmpdir(ctx, rule='R-TMPDIR'):
+    """an unusable temp directory is *reported*: every temporary node file is created in the configured directory when one is
+    configured (so that its IO error surfaces), and a writer derived from another writer keeps the configuration"""
+    F = ctx.F
+    n = 0
+    for f in F.lib_fns():
+        for c in f.calls():
+            if not (c.callee.startswith('parallel::TmpNodes') and c.callee.endswith(('::new', '::new_in'))):
+                continue
+            if f.path.startswith('parallel::'):
+                continue
+            n += 1
+            in_dir = c.callee.endswith('::new_in')
+            good = False
+            for s0, x0, e in paths.controlling_conds(f, c.bb):
+                if e[0] == 'disc' and paths.edge_dominates(f, s0, x0, c.bb) and any(y[0] == 'field' and y[2] == 'tmpdir' for y in walk(e[1])):
+                    good = list(e[2]) == ([1] if in_dir else [0])
+            if in_dir and good:
+                good = any(y[0] == 'field' and y[2] == 'tmpdir' for y in walk(c.arg_term(0)))
+            ctx.check(good, rule, '%s/%s#%d' % (f.path, short(c.callee), n), c.loc(),
+                      'temporary file created in the configured directory' if in_dir else 'OS temp directory only when no directory is configured',
+                      '`%s` creates its temporary node file %s: a configured but unusable temp directory would not be reported' % (
+                          f.path, 'in another directory than the configured one' if in_dir else 'in the OS temp directory even when a directory is configured'))
+    ctx.floor(rule, 'temporary node file constructions in the writer', n, 6)
+    # writers derived from a writer keep `tmpdir`
+    m = 0
+    for f in F.lib_fns():
+        if not f.path.startswith('writer::') or 'writer::Writer<' not in f.ret_ty():
+            continue
+        srcs = [i for i in range(1, f.arg_count + 1) if f.local_ty(i).lstrip('&').startswith('writer::Writer<')]
+        if not srcs:
+            continue
+        m += 1
+        for b, k, t in paths.ret_assigns(f):
+            if k not in ('ok', 'other', 'call'):
+                continue
+            d = paths.agg_fields(t, 'writer::Writer')
+            good = d is not None and 'tmpdir' in d and any(y[0] == 'field' and y[2] == 'tmpdir' and root(y)[0] == 'arg' and root(y)[1] in srcs for y in walk(d['tmpdir']))
+            ctx.check(good, rule, '%s/derived-writer' % f.path, f.loc(), 'the derived writer keeps the configured temp directory',
+                      '`%s` returns a writer that does not carry over `tmpdir` from the writer it was derived from: a configured temp directory (and its errors) would be silently dropped' % f.path)
+    ctx.floor(rule, 'functions deriving a writer from a writer', m, 1)
+
+
 def r_raii(ctx):
     F = ctx.F
     rule = 'R-RAII'
@@ -333,5 +376,6 @@ def run(ctx):
     r_err(ctx)
     r_maperr(ctx)
     r_cancel(ctx)
+    r_tmpdir(ctx)
     effect_scan(ctx, 'R-NO-COMMIT', EFF_TXN_ENV, what='transaction/environment functions')
     r_raii(ctx)
